@@ -253,6 +253,80 @@ example :
     a.sink = [2, 3] ∧ b.sink = [2, 3] ∧ quiescentB a.stages = true ∧ quiescentB b.stages = true := by
   decide
 
+/-- **C18 (`eventually_delivered`: any order, fairness style).** Pipeline as in `quiesce_delivers_all`,
+    ANY reachable state `s`, and ANY continuation `es'` without new input — `recv`, `timeout`, `srcIdle`
+    events in an arbitrary interleaving, enabled or not:
+    1. the number of events of `es'` that are enabled when their turn comes is at most the work bound
+       `phi s.stages` (a number computed from the state: 2 per queued batch, 2 per buffered element and
+       what they cause downstream, 1 per armed timeout) — there is no infinite activity without input,
+       whatever the order, and each enabled event uses up at least one unit of the bound;
+    2. nothing is emitted meanwhile;
+    3. as soon as no event except new input is enabled (`Stuck`: every channel empty, every block in
+       its untimed receive, the source asleep) — the only way for a fair execution to stop, reached
+       after at most `phi s.stages` enabled events by 1. — every batcher and channel is empty and the
+       sink holds everything emitted, in order.
+    Together with `timeout_needs_recv` (a block whose input has drained performs at most ONE further
+    timeout): regardless of the order of the remaining `recv` events, one timeout per block after its
+    input channel drained delivers everything. -/
+theorem eventually_delivered (cfg : List (Batcher.Mode × (α → List α))) (hne : cfg ≠ [])
+    (hadp : ∀ c ∈ cfg.tail, isAdaptive c.1 = true) (es es' : List (Ev α))
+    (hno : ∀ e ∈ es', Ev.isSrc e = false) :
+    let s := run (State.init cfg) es
+    let t := run s es'
+    countEnabled s es' + phi t.stages ≤ phi s.stages ∧
+    t.emitted = s.emitted ∧
+    (Stuck t → Quiescent t.stages ∧ t.sink = downF (cfg.map (·.2)) s.emitted) := by
+  intro s t
+  obtain ⟨hi, hc⟩ := run_inv es _ (inv_init cfg)
+  obtain ⟨hi', hc'⟩ := run_inv es' s hi
+  have hfs : fsOf t.stages = cfg.map (·.2) := hc'.1.trans (hc.1.trans (fsOf_init cfg))
+  have hmodes : t.stages.map (·.mode) = cfg.map (·.1) := hc'.2.trans (hc.2.trans (modes_init cfg))
+  have hne' : s.stages ≠ [] := by
+    intro h0
+    have h0' : (run (State.init cfg) es).stages = [] := h0
+    have := congrArg List.length (hc.1.trans (fsOf_init cfg))
+    simp [h0', fsOf] at this
+    exact hne (List.eq_nil_of_length_eq_zero this.symm)
+  have hem : t.emitted = s.emitted := by
+    have := run_emitted es' s hi hne'
+    rw [srcItems_noSrc es' hno, List.append_nil] at this
+    exact this
+  refine ⟨run_work es' s hi hno, hem, fun hst => ?_⟩
+  have hadp' : ∀ u ∈ t.stages.tail, isAdaptive u.mode = true := by
+    intro u hu
+    have hm : u.mode ∈ (t.stages.map (·.mode)).tail := by
+      rw [← List.map_tail]; exact List.mem_map_of_mem hu
+    rw [hmodes, ← List.map_tail] at hm
+    obtain ⟨c, hc1, hc2⟩ := List.mem_map.mp hm
+    rw [← hc2]; exact hadp c hc1
+  have hq := stuck_quiescent t hi' hst hadp'
+  refine ⟨hq, ?_⟩
+  have hb := hi'.bal
+  rw [pending_quiescent _ hq, List.append_nil, hfs, hem] at hb
+  exact hb
+
+/-- Non-vacuity: from the state of the first example, a DIFFERENT order than `quiesceSched` (the sink
+    side first, timeouts early, useless events in between) also ends stuck with everything delivered;
+    14 of its events are enabled, the work bound of the start state is 40. -/
+example :
+    let cfg : List (Batcher.Mode × (Nat → List Nat)) :=
+      [(.adaptive 3, fun x => [x]), (.adaptive 3, fun x => [x + 1]), (.adaptive 3, fun x => [x, x + 100])]
+    let s := run (State.init cfg)
+      [.src 1 [], .src 2 [], .srcIdle, .src 3 [], .recv 0 [], .timeout 1, .src 4 [], .src 5 [true], .src 6 []]
+    let es' : List (Ev Nat) := [.recv 1 [], .timeout 2, .timeout 1, .recv 2 [], .recv 0 [], .recv 2 [],
+      .srcIdle, .recv 0 [], .timeout 1, .recv 1 [], .recv 1 [], .recv 1 [], .timeout 2, .recv 2 [], .recv 2 [], .recv 2 [], .recv 2 []]
+    (run s es').sink = [2, 102, 3, 103, 4, 104, 5, 105, 6, 106, 7, 107] ∧
+    quiescentB (run s es').stages = true ∧ phi s.stages = 40 ∧ countEnabled s es' = 14 := by
+  decide
+
+/-- **C18 (one timeout per drained block).** In ANY schedule continuing from any reachable state that
+    contains no receive of block `i ≥ 1` (its input has drained: no `recv (i-1)`), at most one
+    `timeout i` event is enabled — a timeout needs a preceding receive to be re-armed. -/
+theorem timeout_needs_recv (cfg : List (Batcher.Mode × (α → List α))) (es es' : List (Ev α)) (i : Nat)
+    (hi : 1 ≤ i) (hno : noRecvOf i es' = true) :
+    countTimeouts i (run (State.init cfg) es) es' ≤ 1 :=
+  (countTimeouts_le es' i _ hi hno).1
+
 /-! ### Finding F12 — the bound does not survive continued input for other destinations
 
   Full-strength reading of C18 ("all pauses between input elements"): an element handed to the source
@@ -370,5 +444,84 @@ theorem bounded_delay_partial (cfg : List (Batcher.Mode × (α → List α)))
     | cons e l ih =>
       cases e <;> simp only [List.filter_cons, List.filterMap_cons, Ev.isTimeout, timeoutIdx] <;> simp [ih]
   rw [this, g4]; simp
+
+end Noir.Latency
+
+/-! ## The general network: several replicas per block, fan-out, several upstream senders
+
+  `Model/Latency.lean`, namespace `Noir.Net`: layers of blocks with `width i` replicas, one batcher per
+  (replica, downstream replica), any routing function per layer, a receiver takes batches from any of
+  its upstream replicas in any order, every received batch re-arms the block's timeout, and the
+  timeout is enabled only when ALL incoming links are empty. -/
+namespace Noir.Net
+
+variable {α : Type}
+
+/-- **C18 (`batch_mode_invisible` on the network: conservation per destination, any schedule).**
+    Any configuration (widths, modes, chains, routing), any schedule, any timer outcomes. For every
+    link `(i, r) → (i+1, d)`: what `d` has received over it, followed by what is in flight on it
+    (channel, then the batcher of `r` towards `d`), is exactly — same elements, same order — what `r`
+    enqueued towards `d`; and that is exactly the sub-sequence, routed to `d`, of what `r`'s chain
+    makes of the elements `r` has processed. No mode, size, timer or schedule appears on the
+    right-hand sides. -/
+theorem net_batch_mode_invisible (c : Cfg α) (es : List (Ev α)) :
+    let s := run c State.init es
+    (∀ i r d, s.recvOn i r d ++ ((s.row i r).out d).flatten ++ (s.row i r).buf d = (s.row i r).sent d) ∧
+    (∀ i r d, i ≤ c.depth →
+      (s.row i r).sent d = ((s.got i r).flatMap (c.f i)).filter (fun y => dest c i y = d)) := by
+  intro s
+  have h := run_inv c es _ (inv_init c)
+  exact ⟨fun i r d => (h.link i r d).1, h.routed⟩
+
+/-- **C18 (`idle_block_is_flushed`, all batchers of the block).** -/
+theorem net_idle_block_is_flushed (c : Cfg α) (es : List (Ev α)) (i r : Nat)
+    (hidle : (run c State.init es).idle i r = true) : ∀ d, ((run c State.init es).row i r).buf d = [] :=
+  (run_inv c es _ (inv_init c)).idle i r hidle
+
+/-- **C18 (delivery on the network, `_partial`).** Blocks `1 … depth` adaptive. In any reachable state
+    in which nothing but new input can happen any more — every link empty, every source asleep, no
+    receive timeout enabled (each block has timed out once after ALL its incoming links drained) —
+    every batcher of every replica is empty and every replica has received, over every link, exactly
+    what was enqueued for it, in order.
+    Full statement (`quiesce_delivers_all` / `eventually_delivered` for the network): every execution
+    without further input reaches such a state after boundedly many events, one timeout per replica
+    after its inputs drained. Proved for the one-replica-per-block pipeline (`Noir.Latency`); on the
+    network the termination argument (work bound) is not formalised — what is missing is only that
+    step, the safety part is this theorem. Fan-out is also where F12 lives. -/
+theorem net_stuck_delivered_partial (c : Cfg α)
+    (hadp : ∀ i, 1 ≤ i → i ≤ c.depth → isAdaptive (c.mode i) = true) (es : List (Ev α))
+    (hst : Stuck c (run c State.init es)) :
+    Quiescent (run c State.init es) ∧
+    ∀ i r d, (run c State.init es).recvOn i r d = ((run c State.init es).row i r).sent d :=
+  stuck_quiescent c _ (run_inv c es _ (inv_init c)) hst hadp
+
+/-- Non-vacuity: source → 2 replicas (routing `y % 2`) → sink, `Adaptive 2`: size flushes, an idle flush,
+    one timeout per replica; the sink gets everything, per link in order. -/
+example :
+    let c : Cfg Nat := ⟨1, fun i => if i = 1 then 2 else 1, fun _ => .adaptive 2, fun _ x => [x], fun _ y => y⟩
+    let s := run c State.init [.src 0 1 [], .src 0 2 [], .src 0 3 [], .srcIdle 0, .recv 1 1 0 [], .recv 1 0 0 [],
+      .timeout 1 0, .timeout 1 1, .recv 2 0 1 [], .recv 2 0 0 []]
+    s.got 2 0 = [1, 3, 2] ∧ s.recvOn 0 0 1 = [1, 3] ∧ s.recvOn 0 0 0 = [2] ∧ (s.row 0 0).sent 1 = [1, 3] ∧
+    s.idle 1 0 = true ∧ s.idle 1 1 = true := by
+  decide
+
+end Noir.Net
+
+/-! ## F12 on the executable component model the harness `tblock` is diffed against -/
+namespace Noir.Latency
+
+/-- `KBlock` (k = 2, `Adaptive 5`, `max_delay` 60 ms): after 96 ms of silence `15 → B` is sent at once,
+    `30 → B` is buffered; eight batches for A arrive 24 ms apart (192 ms ≫ 60 ms): `30` is still in
+    B's batcher and is sent only by the timeout that follows the end of that input. Exactly the case
+    the harness replays on the real `Start` + `End`. -/
+theorem starved_batcher_kblock_counterexample :
+    let b0 : KBlock Nat := (KBlock.init 2).pass 96
+    let r1 := KBlock.recv (.adaptive 5) 60 b0 [(1, 15)]
+    let r2 := KBlock.recv (.adaptive 5) 60 r1.1 [(1, 30)]
+    let r3 := (List.range 8).foldl (fun (acc : KBlock Nat) k =>
+      (KBlock.recv (.adaptive 5) 60 (acc.pass 24) [(0, 100 + k)]).1) r2.1
+    r1.2 = [(1, [15])] ∧ r2.2 = [] ∧ r3.bufs = [[107], [30]] ∧
+    (KBlock.timeout 60 r3).2 = [(0, [107]), (1, [30])] := by
+  decide
 
 end Noir.Latency
